@@ -220,17 +220,77 @@ def run(chk):
         raise AnalysisBroken("spltVector2D<double> not found")
     f = sp[0]
     chk.saw(f)
+    # roles by position and by dataflow, not by the names of the locals: parameters (x, stride, ibegin, iend); the returned vector; iterators into both
+    from tsg.sym import to_sympy, NotClosedForm
+    ps = f.params()
+    XS, ST, IB, IE = sympy.Symbol("xsize", positive=True, integer=True), sympy.Symbol("stride", positive=True, integer=True), sympy.Symbol("ibegin", integer=True), sympy.Symbol("iend", integer=True)
+    IX, IR = sympy.Symbol("it_source"), sympy.Symbol("it_result")
     loc = f.locals()
-    defs = {d["name"]: txt(strip(d["c"][0])) for d in loc.values() if d.get("c") and d.get("name")}
-    ok = defs.get("new_stride", "").replace(" ", "") == "send-sbegin" and defs.get("sbegin") == "ibegin" and defs.get("send") == "iend" and defs.get("num_strips", "").replace(" ", "") == "x.size()/stride"
-    chk.ob("C11-D4.kernel", f.name, "new_stride = iend - ibegin, strips = size / stride", ok, f.where, str({k: defs.get(k) for k in ("sbegin", "send", "new_stride", "num_strips")}))
+    rets = [q for r in f.walk() if r.get("k") == "ReturnStmt" and r.get("c") for q in [r["c"][0]] + list(walk(r["c"][0])) if q.get("k") == "DeclRefExpr" and q.get("did") in f.locals()]
+    res_did = rets[0].get("did") if rets else None
+
+    def resolve(n, depth=[0]):
+        k = n.get("k")
+        if k == "CXXMemberCallExpr" and short(callee(n) or "") == "size" and (strip(call_object(n)) or {}).get("did") == ps[0]["did"]:
+            return XS
+        if k == "CXXMemberCallExpr" and short(callee(n) or "") in ("begin", "cbegin"):
+            o = strip(call_object(n)) or {}
+            if o.get("did") == ps[0]["did"]:
+                return IX
+            if o.get("did") == res_did:
+                return IR
+        if k == "DeclRefExpr":
+            d = n.get("did")
+            if d == ps[1]["did"]:
+                return ST
+            if d == ps[2]["did"]:
+                return IB
+            if d == ps[3]["did"]:
+                return IE
+            dl = loc.get(d)
+            if dl is not None and dl.get("c") and depth[0] < 6:
+                depth[0] += 1
+                try:
+                    ini = dl["c"][0]
+                    # size_t sbegin(ibegin): a constructor-style initialiser
+                    return to_sympy(ini, resolve)
+                finally:
+                    depth[0] -= 1
+        if k in ("CXXOperatorCallExpr",) and n.get("op") == "+":
+            ch = [c for c in n.get("c", []) if isinstance(c, dict)]
+            return to_sympy(ch[1], resolve) + to_sympy(ch[2], resolve)
+        return None
+
+    def sym(e):
+        try:
+            return sympy.simplify(to_sympy(e, resolve))
+        except NotClosedForm as ex:
+            return None
+    NS = sympy.floor(XS / ST)
     cp = [c for c in f.calls("std::copy_n")]
-    okc = len(cp) == 1 and [txt(strip(a)).replace(" ", "") for a in call_args(cp[0])] == ["ix+sbegin", "new_stride", "ir"]
-    chk.ob("C11-D4.kernel", f.name, "copy_n(ix + sbegin, new_stride, ir)", okc, f.loc(cp[0]) if cp else f.where, str([txt(strip(a)) for a in call_args(cp[0])]) if cp else "")
-    adv = {txt(strip(call_args(c)[0])): txt(strip(call_args(c)[1])) for c in f.calls("std::advance")}
-    chk.ob("C11-D4.kernel", f.name, "source advances by stride, destination by new_stride", adv == {"ix": "stride", "ir": "new_stride"}, f.where, str(adv))
-    res = [d for d in loc.values() if d.get("name") == "result"]
-    chk.ob("C11-D4.kernel", f.name, "result has num_strips * new_stride entries", bool(res) and "num_strips * new_stride" in txt(res[0]), f.where)
+    got = [sym(a) for a in call_args(cp[0])] if len(cp) == 1 else []
+    okc = len(cp) == 1 and None not in got and sympy.simplify(got[0] - (IX + IB)) == 0 and sympy.simplify(got[1] - (IE - IB)) == 0 and sympy.simplify(got[2] - IR) == 0
+    chk.ob("C11-D4.kernel", f.name, "each strip: copy (iend - ibegin) entries from source + ibegin to the destination", okc, f.loc(cp[0]) if cp else f.where, str(got))
+    adv = {}
+    for c in f.calls("std::advance"):
+        a0, a1 = sym(call_args(c)[0]), sym(call_args(c)[1])
+        adv[str(a0)] = a1
+    okadv = set(adv) == {str(IX), str(IR)} and adv[str(IX)] is not None and adv[str(IR)] is not None and sympy.simplify(adv[str(IX)] - ST) == 0 and sympy.simplify(adv[str(IR)] - (IE - IB)) == 0
+    chk.ob("C11-D4.kernel", f.name, "source advances by stride, destination by iend - ibegin", okadv, f.where, str(adv))
+    rd = loc.get(res_did)
+    rsize = None
+    if rd is not None:
+        for q in walk(rd):
+            if q.get("k") == "CXXConstructExpr":
+                a_ = [x for x in q.get("c", []) if isinstance(x, dict)]
+                if a_:
+                    rsize = sym(a_[0])
+                    break
+    okr = rsize is not None and sympy.simplify(rsize - NS * (IE - IB)) == 0
+    chk.ob("C11-D4.kernel", f.name, "result has (size / stride) * (iend - ibegin) entries", okr, f.where, str(rsize))
+    loops = [l for l in f.walk() if l.get("k") == "ForStmt" and l.get("cond") is not None]
+    bound = sym(strip(loops[0]["cond"])["c"][1]) if loops and strip(loops[0]["cond"]).get("k") == "BinaryOperator" else None
+    chk.ob("C11-D4.kernel", f.name, "one iteration per strip (size / stride)", bound is not None and sympy.simplify(bound - NS) == 0 and strip(loops[0]["cond"]).get("op") == "<", f.where, str(bound))
 
     # ------------------------------------------------------------------ D6 shape of the split containers
     chk.rule("C11-D6.shape", "the container returned by splitData / splitValues has stride iend - ibegin, the strip count of its source and the data produced by spltVector2D(source data, "
